@@ -8,6 +8,31 @@ import traceback
 from . import common
 
 
+def generic_replay(mod, a):
+    """checks without a dedicated replay: every case of a run is derived from (tier, seed), both recorded in the
+    replay file, so the run is repeated on the current tree and the recorded case is looked up among what it reports.
+    Nothing is written (no evidence, no replay files)."""
+    import json
+    rec = json.load(open(a.replay))
+    tier, seed = rec.get("tier", "quick"), int(rec.get("seed", 1))
+    chk = common.Check(a.prop, tier, seed, level=getattr(mod, "LEVEL", "proof"), exe=getattr(mod, "EXE", "amodel"))
+    mod.run(chk)
+    flush = getattr(mod, "flush_reports", None)
+    if flush:
+        flush(chk)
+    want = rec.get("summary", "")
+    found = [s for s, _r in chk.violations if s == want] + [w for w, _d in chk.unshown if w == want]
+    print(f"recorded: {want[:500]}")
+    if found:
+        print("REPRODUCED on the current tree (same tier and seed)")
+        return common.EXIT_VIOLATION
+    others = len(chk.violations) + len(chk.unshown)
+    print(f"not reproduced on the current tree ({others} other report(s) in this run)")
+    for s, _r in chk.violations[:5]:
+        print("  other:", s[:300])
+    return common.EXIT_OK
+
+
 def main():
     ap = argparse.ArgumentParser()
     ap.add_argument("prop")
@@ -19,7 +44,9 @@ def main():
     chk = common.Check(a.prop, a.tier, a.seed, level=getattr(mod, "LEVEL", "proof"), exe=getattr(mod, "EXE", "amodel"))
     try:
         if a.replay:
-            return mod.replay(chk, a.replay)
+            if hasattr(mod, "replay"):
+                return mod.replay(chk, a.replay)
+            return generic_replay(mod, a)
         mod.run(chk)
         return chk.finish()
     except common.Infra as e:
